@@ -45,6 +45,10 @@ def _site_matches(site, v):
         return False
     if "k_min" in site and not (isinstance(case.get("k"), int) and case["k"] >= site["k_min"]):
         return False
+    if "k_eq" in site and case.get("k") != site["k_eq"]:
+        return False
+    if "items_sorted_in" in site and sorted(case.get("items") or []) not in [sorted(x) for x in site["items_sorted_in"]]:
+        return False
     if "fmt_in" in site and case.get("fmt", "list") not in site["fmt_in"]:
         return False
     if "config_contains" in site and site["config_contains"] not in v["config"]:
